@@ -41,7 +41,10 @@ pub(crate) fn literal(p: &mut Parser<'_>) -> Option<CompletedMarker> {
         // We don't have access to the text of the identifier here, so we can't distinguish
         // timing literals from imaginary literals. We tag everything TIMING_LITERAL
         // Later in semantic analysis we separate imaginary literals from timing literals.
+        // The TIMING_LITERAL node encloses the LITERAL node, so it must be started first.
+        m.abandon(p);
         let m2 = p.start(); // TIMING_LITERAL
+        let m = p.start(); // LITERAL
         p.bump_any(); // The numeric literal
         m.complete(p, LITERAL);
         identifier(p); // The time unit suffix, or quasi-suffix.
